@@ -63,6 +63,15 @@ class ShardWriterNP(ShardWriterBase):
         values = dict(values)
         for attribute in self.dataset_structure.saved_data_description:
             if not attribute.has_variable_size():
+                # Save the declared dtype whenever that loses nothing (e.g.,
+                # float32 values of a float64 attribute). Otherwise the
+                # conversion is left to the readers, and TensorFlow flushes
+                # subnormal float32 numbers to zero when it widens them.
+                array = np.asarray(values[attribute.name])
+                declared = np.dtype(attribute.dtype)
+                if array.dtype != declared and np.can_cast(
+                        array.dtype, declared, casting="safe"):
+                    values[attribute.name] = array.astype(declared)
                 continue
             value = values[attribute.name]
             if isinstance(value, (bytearray, memoryview)):
